@@ -265,6 +265,10 @@ type Backend struct {
 	Conns map[int]*smtp.Conn
 }
 
+// Lock/Unlock guard Conns for readers outside the backend.
+func (b *Backend) Lock()   { b.mu.Lock() }
+func (b *Backend) Unlock() { b.mu.Unlock() }
+
 func NewBackend(l *Log, kind SessKind) *Backend {
 	return &Backend{Log: l, Kind: kind, Conns: map[int]*smtp.Conn{}}
 }
@@ -486,8 +490,8 @@ func (r *recSasl) Next(resp []byte) (ch []byte, done bool, err error) {
 	return
 }
 
-func (s *authSession) AuthMechanisms() []string                   { return s.authMechs() }
-func (s *authSession) Auth(mech string) (sasl.Server, error)      { return s.auth(mech) }
+func (s *authSession) AuthMechanisms() []string              { return s.authMechs() }
+func (s *authSession) Auth(mech string) (sasl.Server, error) { return s.auth(mech) }
 
 type authLMTPSession struct{ *session }
 
